@@ -42,7 +42,7 @@ CHECKS = {
             "The engine equations are pinned in gamma (see C01); TxnType._store_results: every context's transaction_types lists exactly the computed kinds. Per-block statement over whole runs: "
             "run-time engine contracts and BS-PROG (bounded).", "contract-based deductive verification (pyvc) + run-time engine contracts + BS-PROG"),
  "C08": (P, "Proved: AddrFields._union/_intersection exact in gamma and marker-invariant preserving (and not mutating their arguments), _get_asserted_address, _get_asserted_txn_gtxn sound for "
-            "constant comparands in both orders (finding D19 carved out); engine equations (see C01). Per-block statement over whole runs: run-time engine contracts and BS-PROG (bounded).",
+            "constant comparands in both orders (finding D19 carved out); engine equations (see C01); AddrFields._set_addr_values (flags and list shown for a computed set). Per-block statement over whole runs: run-time engine contracts and BS-PROG (bounded).",
             "contract-based deductive verification (pyvc) + run-time engine contracts + BS-PROG"),
  "C09": (P, "Proved: FeeField lattice exact; _get_asserted_max_value sound and tight; _get_asserted_fee sound and exact in both operand orders incl. the mirrored operator (fix 2b2fb7f); "
             "finding D18 carved out; the fee closure's threshold (272000), the engine equations (see C01) and FeeField._store_results (what the detectors read is what was computed: owner-view "
